@@ -8,6 +8,7 @@ import Z80.Gen.All
 import Z80.Spec.Koron
 import Z80.Spec.Interrupt
 import Z80.Spec.KoronIM0
+import Z80.Spec.KoronIM0B
 import Z80.RunModel
 import Z80.Gen.TinyCPM
 
@@ -48,7 +49,9 @@ def cpmState (v : Vec) (line : String) : St :=
   let mo := match toks.dropWhile (· ≠ "MO") with | _ :: x :: _ => x | _ => "-"
   let ovs := (parseOverrides mo).getD []
   let bios : List (U16 × List U8) := Z80.Gen.cpmBios.map fun p => (BitVec.ofNat 16 p.1, p.2.map (BitVec.ofNat 8))
-  { v.st with mem := applyOverrides (fun _ => 0#8) (bios ++ ovs), dev := fun _ _ => 0#8, IO := true, IFF1 := false, IFF2 := false, IM := 0,
+  let arr := (bios ++ ovs).foldl (fun (a : ByteArray) (p : U16 × List U8) =>
+      (p.2.foldl (fun (q : ByteArray × Nat) b => (q.1.set! (q.2 % 65536) b.toNat.toUInt8, q.2 + 1)) (a, p.1.toNat)).1) (ByteArray.mk (Array.replicate 65536 0))
+  { v.st with mem := arrMem arr, dev := fun _ _ => 0#8, IO := true, IFF1 := false, IFF2 := false, IM := 0,
               HALT := false, Interrupt := none, BreakPoints := none, RETNHandler := false, RETIHandler := false,
               IX := 0#16, IY := 0#16, IR := ⟨0#8, 0#8⟩, Alternate := default }
 
@@ -95,5 +98,6 @@ def main (args : List String) : IO Unit := do
   let stdout ← IO.getStdout
   match args with
   | ["spec"] => loop stdin stdout specStep
-  | ["kf"] => loop stdin stdout (Z80.Spec.stepKF Z80.Spec.Impl.koron)
+  | ["kf"] => loop stdin stdout (Z80.Spec.stepKFB Z80.Spec.Impl.koron)
+  | ["kfold"] => loop stdin stdout (Z80.Spec.stepKF Z80.Spec.Impl.koron)
   | _ => loop stdin stdout Z80.Gen.Step true
